@@ -197,8 +197,84 @@ Definition rename_column_sim_hyp (s : schema) (a : action) : bool :=
   | _ => false
   end.
 
-(* the action falls under one of the proved simulation lemmas of Properties/C04.v *)
-Definition sim_proved_for (s : schema) (a : action) : bool :=
+(* ---------- the MODIFY COLUMN re-declaration in its strongest form: all attributes at once ---------- *)
+(* everything a MySQL column definition carries: type text, NOT NULL, DEFAULT text, COMMENT, AUTO_INCREMENT, inline
+   PRIMARY KEY *)
+Definition restated_all (d : coldef) : string * bool * option string * option string * bool * bool :=
+  (cd_type d, cd_notnull d, cd_default d, cd_comment d, cd_auto d, cd_pk d).
+(* what the evolving schema holds for column [c] of table [t] (the column is [col] there) *)
+Definition declared_all (s : schema) (t : string) (col : column_def) : string * bool * option string * option string * bool * bool :=
+  (mysql_type_text (c_type col), negb (c_nullable col), option_map (mysql_default_text (c_type col)) (c_default col),
+   c_comment col, (is_auto_col s t (c_name col) && supports_auto_increment (c_type col))%bool, false).
+(* only ModifyColumnComment writes a COMMENT clause: the other three keep the comment only when there is none *)
+Definition modify_comment_ok (a : action) (col : column_def) : bool :=
+  match a with ModifyColumnComment _ _ _ => true | _ => is_none (c_comment col) end.
+(* the hypothesis of C04_modify_restates_all: outside the class C04-autoinc-lost-on-modify, outside the re-quoting
+   corner (modify_default_ok) and outside C04-comment-lost-on-modify *)
+Definition modify_all_hyp (s : schema) (a : action) (t c : string) (col : column_def) : bool :=
+  (negb (is_auto_col s t c) && modify_default_ok a col && modify_comment_ok a col)%bool.
+
+(* class C04-comment-lost-on-modify: a ModifyColumnType / Nullable / Default on a column that carries a comment *)
+Definition p_comment_lost (s : schema) (a : action) : bool :=
+  match a with
+  | ModifyColumnType t c _ _ | ModifyColumnNullable t c _ _ | ModifyColumnDefault t c _ =>
+      match lookup_column s t c with Some col => is_some (c_comment col) | None => false end
+  | _ => false
+  end.
+Definition known_C04_comment_lost := along p_comment_lost.
+
+(* ---------- DeleteColumn of a column that is the only member of unique / index keys ---------- *)
+(* every constraint either does not mention the column or is a single-column PRIMARY KEY / UNIQUE / INDEX over it (MySQL
+   drops the emptied key, the baseline drops the emptied constraint); multi-column keys are the class
+   C04-composite-member-drop, foreign keys C04-drop-column-with-foreign-key / C04-fk-lost-by-referenced-column-name;
+   the table has at most one primary key *)
+Definition single_key_of (c : string) (k : table_constraint) : bool :=
+  match k with
+  | CPrimaryKey _ [x] | CUnique _ [x] | CIndex _ [x] => String.eqb x c
+  | _ => false
+  end.
+Definition delete_column_keys_sim_hyp (s : schema) (a : action) : bool :=
+  match a with
+  | DeleteColumn t c =>
+      match find_table t s with
+      | Some td =>
+          (wf_names s && wf_auto s && has_column c td
+           && forallb (fun k => (single_key_of c k || negb (constraint_mentions c k))%bool) (t_constraints td)
+           && forallb constraint_nonempty (t_constraints td)
+           && negb (column_referenced s t c)
+           && Nat.leb 2 (List.length (t_columns td))
+           && Nat.leb (List.length (filter is_pk (t_constraints td))) 1)%bool
+      | None => false
+      end
+  | _ => false
+  end.
+
+(* ---------- RenameColumn of a column that NAMED keys / foreign keys contain ---------- *)
+(* derived names embed the column names only for unnamed constraints (name_with): a column of a named unique / index /
+   foreign key can be renamed; unnamed ones and referenced columns are the class C04-names-after-rename *)
+Definition rename_ok_constraint (a : string) (k : table_constraint) : bool :=
+  match k with
+  | CPrimaryKey _ _ | CCheck _ _ => true
+  | CUnique n cols | CIndex n cols => (is_some n || negb (mem_str a cols))%bool
+  | CForeignKey n cols _ rcols _ _ => ((is_some n || negb (mem_str a cols)) && negb (mem_str a rcols))%bool
+  end.
+Definition rename_column_named_sim_hyp (s : schema) (a : action) : bool :=
+  match a with
+  | RenameColumn t from to =>
+      match find_table t s with
+      | Some td =>
+          (wf_names s && has_column from td && negb (has_column to td)
+           && forallb (rename_ok_constraint from) (t_constraints td)
+           && forallb (fun k => negb (constraint_mentions to k)) (t_constraints td)
+           && forallb constraint_nonempty (t_constraints td)
+           && negb (column_referenced (step s a) t from))%bool
+      | None => false
+      end
+  | _ => false
+  end.
+
+(* the action kinds and hypotheses proved up to round 3 (kept to report theorem coverage before / after) *)
+Definition sim_proved_for_r3 (s : schema) (a : action) : bool :=
   match a with
   | CreateTable _ _ _ => create_table_sim_hyp s a
   | DeleteTable t => negb (referenced_by_other s t)
@@ -216,4 +292,12 @@ Definition sim_proved_for (s : schema) (a : action) : bool :=
   | RemoveConstraint _ (CPrimaryKey _ _) => remove_pk_sim_hyp s a
   | RenameTable _ _ => rename_table_sim_hyp s a
   | RenameColumn _ _ _ => rename_column_sim_hyp s a
+  end.
+
+(* the action falls under one of the proved simulation lemmas of Properties/C04.v *)
+Definition sim_proved_for (s : schema) (a : action) : bool :=
+  match a with
+  | DeleteColumn _ _ => (delete_column_sim_hyp s a || delete_column_keys_sim_hyp s a)%bool
+  | RenameColumn _ _ _ => (rename_column_sim_hyp s a || rename_column_named_sim_hyp s a)%bool
+  | _ => sim_proved_for_r3 s a
   end.
